@@ -177,6 +177,10 @@ prop('C19',
          LENGTH_DELIMITED,
          dict(harness='c18_from_bytes', covers=['c18.bytes.accepted', 'c18.bytes.rejected'], min_paths=300, split=3, conform={'quick': 200, 'thorough': 3000}, nvals=8),
          dict(harness='c20_block_cid', covers=['c20.delivered', 'c20.dropped'], min_paths=1000, split=6, conform={'quick': 100, 'thorough': 2000}, nvals=10),
+         dict(harness='c19_kademlia_message', covers=['c19k.roundtrip', 'c19k.damaged.accepted', 'c19k.damaged.rejected'], min_paths=200, split=2,
+              params={'quick': {'real_kad_messages': 1}, 'thorough': {'real_kad_messages': 1}}, conform={'quick': 200, 'thorough': 2000}, nvals=8),
+         dict(harness='c20_message_received', covers=['c20m.blocks-reported', 'c20m.nothing-acceptable', 'c20m.some-block-dropped'], min_paths=100, split=3,
+              conform={'quick': 100, 'thorough': 1000}, nvals=10),
      ],
      bounds={'input length': 'quick <= 8 bytes, thorough <= 12 bytes'},
      outside=['prost wire-format decoding (library)', 'Multiaddr byte parsing (library)'],
